@@ -239,7 +239,7 @@ def evalOpWith (eqf : Value → Value → Bool) : Opc → Value → Value → Re
 /-- The equality the code under verification uses for `==` / `!=`: the pinned tree's `eq_lossy`.
     THE switch for the candidate fix: once `eq_lossy` compares Integer/Integer exactly, this becomes
     `eqFixed` (nothing else in the model changes; Props/C10.lean proves the full statement for it). -/
-abbrev eqImpl : Value → Value → Bool := eqLossy
+abbrev eqImpl : Value → Value → Bool := eqFixed
 
 /-- the pinned tree -/
 def evalOp : Opc → Value → Value → Res Value := evalOpWith eqImpl
